@@ -171,3 +171,18 @@ package encrypted_leaseset
 //@     assert(!ex)
 //@   }
 //@ }
+
+// C03 / C02 (framing of the tail): the trailing signature of an accepted
+// EncryptedLeaseSet has the size of the key that signs - the transient key's
+// type with offline keys, else the blinded key's sig_type - so the structure's
+// extent ends where the specification says.
+//@ lemma C03_C02_EncryptedTrailingSignature(data []byte) {
+//@   els, _, err := ReadEncryptedLeaseSet(data)
+//@   if err == nil {
+//@     if els.flags&1 != 0 && els.offlineSignature != nil {
+//@       assert(len(sig.SigData(els.signature)) == i2pd.SpecSigLen(offline_signature.OffTransientType(els.offlineSignature)))
+//@     } else {
+//@       assert(len(sig.SigData(els.signature)) == i2pd.SpecSigLen(int(els.sigType)))
+//@     }
+//@   }
+//@ }
